@@ -10,7 +10,8 @@ from ..graph import Graph
 from ..procs import pmap
 from ..tlc import account, run_tlc, tla
 
-# signatures: (name, hasdef, default, kwonly); value 3 stands for the string "1" (JSON-distinct from the integer 1)
+# signatures: (name, hasdef, default, kwonly); values are abstract in the specification and realised as JSON-distinct
+# values that Python's == conflates: 1, 2, 3 -> "1", 4 -> 1.0, 5 -> True
 SIGS = [
     [('a', False, 0, False)],
     [('a', False, 0, False), ('b', True, 2, False)],
@@ -19,13 +20,13 @@ SIGS = [
     [('a', False, 0, False), ('b', True, 2, False), ('k', True, 1, True)],
     [('v', True, 2, False), ('a', True, 1, False)],
 ]
-VALS = [1, 2, 3]
+VALS = [1, 2, 3, 4, 5]
 IGNORED = ['v']
 METHODS = [('m1', ''), ('m2', ''), ('m1', '2')]
 
 
 def pyval(v):
-    return '1' if v == 3 else v
+    return {3: '1', 4: 1.0, 5: True}.get(v, v)
 
 
 def mc(part, gen=False, steps=4):
@@ -166,18 +167,29 @@ def part_b(job):
     try:
         cache = tc.InMemoryCache() if kind == 'mem' else tc.JsonCache(root)
         sig = [dict(name='a', hasdef=False, kwonly=False, **{'def': 0}), dict(name='b', hasdef=True, kwonly=False, **{'def': 2})]
-        A1 = make_class(sig, 'm1')
-        A2 = make_class(sig, 'm2')
+        # m1 and m2 live in ONE class and are wrapped by ONE configured decorator object; their defaults differ
+        from taskchain.cache import cached
+        deco = cached()
+        ns = {}
+        exec("def m1(self, a, b=2):\n    self.n += 1\n    return {'args': [a, b], 'inv': self.n}\n"
+             "def m2(self, a, b=7):\n    self.n += 1\n    return {'args': [a, b], 'inv': self.n, 'm': 2}\n", ns)
+
+        def init(self, cache=None):
+            self.cache, self.n, self.calls = cache, 0, []
+        Pair = type('C_pair', (), {'__init__': init, 'm1': deco(ns['m1']), 'm2': deco(ns['m2'])})
         B1 = make_class(sig, 'm1', version='2')
-        objs = {('m1', ''): A1(cache), ('m2', ''): A2(cache), ('m1', '2'): B1(cache)}
+        pair = Pair(cache)
+        objs = {('m1', ''): pair, ('m2', ''): pair, ('m1', '2'): B1(cache)}
+        dflt = {'m1': 2, 'm2': 7}
         val = {}  # model value id -> real value
         hist = []
         for act, exp in beh:
             m = tuple(act['m'])
             obj = objs[m]
             fn = getattr(obj, m[0])
-            spelling = rng.choice([((act['b'],), {}), ((), {'a': act['b']}), ((act['b'], 2), {}), ((act['b'],), {'b': 2}),
-                                   ((), {'b': 2, 'a': act['b']})])
+            d = dflt[m[0]]
+            spelling = rng.choice([((act['b'],), {}), ((), {'a': act['b']}), ((act['b'], d), {}), ((act['b'],), {'b': d}),
+                                   ((), {'b': d, 'a': act['b']})])
             kw = dict(spelling[1])
             ctrl = act['ctrl']
             if ctrl in ('force', 'forcestore'):
@@ -198,7 +210,7 @@ def part_b(job):
                 ok = r is tc.NO_VALUE
             elif act['invoked']:
                 val[act['res']] = r
-                ok = r.get('args') == [act['b'], 2]
+                ok = r.get('args') == [act['b'], d]
             elif act['res'] >= 50 and act['res'] not in val:
                 val[act['res']] = r
                 ok = r == {'supplied': act['res']}
